@@ -281,15 +281,15 @@ theorem C18_generated_grid (xmin ymin xmax ymax w : Rat) :
   simp only [Function.comp, cellTuple, cell, Prod.mk.injEq]
   refine ⟨by grind, by grind, by grind, by grind⟩
 
-/-- **Which data the grid is laid over** (`run_grid_sampling`, regenerated): an empty trace frame gives the empty result; a precursor grid is
+/-- **Which data the grid is laid over** (`run_grid_sampling`, regenerated): an empty trace frame gives the empty result; a COPY of a precursor grid is
 used as it is (a non-frame precursor is a TypeError); otherwise a cell width that is negative or close to zero is a ValueError, and the
 grid is created over the BRANCHES whenever there are any and over the traces only when there are none -- then sampled. -/
-theorem C18_generated_grid_sampling {L Gr R : Type} (empty_result : R) (is_frame : Option Gr → Bool) (dflt : Gr) (isclose0 : Rat → Bool)
+theorem C18_generated_grid_sampling {L Gr R : Type} (empty_result : R) (is_frame : Option Gr → Bool) (dflt : Gr) (copy_ : Gr → Gr) (isclose0 : Rat → Bool)
     (create_grid_ : Rat → List L → Gr) (sample_ : Gr → R) (traces branches : List L) (w : Rat) (pre : Option Gr) :
-    Gen.run_grid_sampling empty_result is_frame dflt isclose0 create_grid_ sample_ traces branches w pre =
+    Gen.run_grid_sampling empty_result is_frame dflt copy_ isclose0 create_grid_ sample_ traces branches w pre =
       (if traces.isEmpty then .ok empty_result
        else match pre with
-         | some g => if is_frame (some g) then .ok (sample_ g) else .error "TypeError"
+         | some g => if is_frame (some g) then .ok (sample_ (copy_ g)) else .error "TypeError"
          | none =>
            if isclose0 w || decide (w < 0) then .error "ValueError"
            else .ok (sample_ (create_grid_ w (if branches.length > 0 then branches else traces)))) := by
